@@ -34,4 +34,11 @@ TEXTS.update({
     "C14": _t("Proof over exact arithmetic (weights scaled by 6) that the modelled distance pipeline reports SNP counts over shared k-mers and |exactly one|/|at least one| for each unordered pair once, under any frequency threshold; tied to the code by random tables through generic_modes::distance and MergeSkaArray::distance. f64 printing is compared with tolerance. Theorems proved so far are listed in the evidence file."),
 })
 
+TEXTS.update({
+    "C02": {"text": "Proof at the specification level that the set of middle bases per canonical split k-mer is invariant under record permutation, any case mask and (strands merged) reverse-complementing any subset of records (T02_perm, T02_case, T02_revcomp, combined T02), which with C01's refinement theorem transfers to the modelled build; sample permutation permutes columns (T02_samples in Props/C11). Tied to the code by metamorphic in-process runs and CLI runs on re-wrapped, gzip-compressed and permuted files.", "note": STD + " gzip decompression and FASTA line joining are not modelled (needletail); they are covered by the CLI runs only.", "technique": "Lean 4 proof on the window specification + metamorphic differential runs"},
+    "C04": {"text": "Position-wise specification of ska map and an executable model of RefSka::new/map, the repeat-range loop and AlnWriter; the model is compared with the code and the specification on every case (references with short contigs, N runs, repeats, lower case; samples with SNPs/indels/rearrangements; all mask combinations; AlnWriter call by call). Theorems proved so far are listed in the evidence file; the writer refinement theorem is in progress, until then the model=spec half rests on these runs.", "note": STD, "technique": "Lean 4 model + specification, differential correspondence (refinement proof in progress)"},
+    "C05": {"text": "Model of IdxCheck and of write_vcf's per-column conversion, specification relating VCF records to the mapped alignment; compared with the code (VCF text parsed and decoded through REF/ALT) on the inputs of C04. Theorems proved so far are listed in the evidence file.", "note": STD + " noodles-vcf rendering is trusted.", "technique": "Lean 4 model + specification, differential correspondence (refinement proof in progress)"},
+    "C11": {"text": "Proof that the modelled parallel split tree (any depth, hence any thread count, both sides of the 10-samples rule) yields the same names, key set and cells as the serial build (T11_tree, T11_threads), that column i is sample i's dictionary (T02_samples) and that map iteration order only permutes rows (T11_order). The runtime part (rayon scheduling, hash seeds, pool initialisation) is decided by a CLI matrix over subcommands x input kinds x thread counts x repetitions, labelled as exploration in the evidence.", "note": STD + " Thread schedules are sampled, not proved.", "technique": "Lean 4 proof of schedule-independence of the modelled logic + CLI thread matrix"},
+})
+
 NOT_YET = {}
